@@ -120,6 +120,21 @@ start :: fn do
     pr(name)
 end
 ''',
+"recursive_function_returning_a_function": '''
+idf :: fn x: int -> int do
+    ret x
+end
+make :: fn n: int -> fn int -> int do
+    if n == 0 do
+        ret idf
+    end
+    g :: make(n - 1)
+    ret fn x: int -> int do ret g(x) + 1 end
+end
+start :: fn do
+    pr(make(2)(1))
+end
+''',
 "qualified_type_paths": '''
 use shapes
 use shapes as sh
